@@ -313,7 +313,7 @@ def schema_of(names):
 
 # ---- T2: export the WITH list the implementation built (fail-closed) -------------------------------------------
 
-UUID_RE = re.compile(r"^[0-9a-f]{32}$")
+UUID_RE = re.compile(r"^([0-9a-f]{32}|a[0-9]+)$")      # replaced in run() by the pattern T1 regenerates from the source
 
 
 def _split_where(sel, exp):
@@ -967,6 +967,8 @@ def run(ctx: core.Ctx):
     try:
         text7, facts7 = c07_facts.generate(core.REPO)
         ctx.gen("C07Facts", text7, facts7)
+        global UUID_RE
+        UUID_RE = re.compile([fa["literal_pattern"] for fa in facts7 if "literal_pattern" in fa][0])
         t7_ok = True
     except Exception as ex:
         ctx.broken("T1:c07_facts", f"{type(ex).__name__}: {ex}")
